@@ -1,4 +1,6 @@
 """C04 Table minimisation never changes where any matched key is routed."""
+import json
+
 from hypothesis import strategies as st
 
 from vf.core import Clause, Violation, require, sut
@@ -69,10 +71,31 @@ def strat_chain(draw, tier):
                                       ["orthogonal", "generality"])),
                                   ks=ks if draw(st.integers(0, 3)) else
                                   None)))
+    # neighbouring chips of one application often hold the same table up to
+    # the direction the packets arrive from (or one route): derive some
+    # chips' tables from the first chip's by changing a few fields
+    for j in range(1, nchips):
+        if tabs[0]["entries"] and draw(st.booleans()):
+            sib = json.loads(json.dumps(tabs[0]))
+            n = len(sib["entries"])
+            for i in draw(st.lists(st.integers(0, n - 1), max_size=3,
+                                   unique=True)):
+                what = draw(st.sampled_from(["sources", "sources", "route",
+                                             "both"]))
+                e = sib["entries"][i]
+                if what in ("sources", "both"):
+                    e["sources"] = draw(st.one_of(
+                        gt.sources_strategy(),
+                        st.integers(0, 5).map(lambda x: [x])))
+                if what in ("route", "both"):
+                    e["route"] = draw(gt.route_strategy())
+            tabs[j] = sib
     methods = draw(st.sampled_from(METHOD_SETS))
     style = draw(st.sampled_from(["table", "tables-int", "tables-dict",
                                   "tables-none"]))
     targets = [draw(target_strategy(len(t["entries"]))) for t in tabs]
+    if draw(st.booleans()):
+        targets = [targets[0]] * len(targets)
     return {"tables": tabs, "methods": methods, "style": style,
             "targets": targets}
 
